@@ -8,14 +8,15 @@ Open Scope string_scope.
 
 (* For ALL item trees in the conventional format (any mix and order of comment lines, blank
    lines, requirements spread over physical lines with white space before each backslash,
-   inline comments, --hash options, option lines, -r/--requirement includes nested to any
-   depth) and every file system that holds the rendering of each nested list where the
-   including line points (relative to the including file): the reader returns, in order,
-   texts whose requirement tokens are exactly the items' requirements, and exactly the
-   option tokens of the option lines.  _partial: option words are unquoted and option
-   lines carry no trailing comment (see the two _refuted theorems below); the unguarded
-   statement is ReqFileC16W.reads_like_pip_full_statement. *)
-Theorem C16_reads_like_pip_partial :
+   inline comments, --hash options, option lines with one or several options, values quoted
+   or not, a trailing comment or not, includes written `-r F`, `--requirement F` or
+   `--requirement=F` nested to any depth) and every file system that holds the rendering of
+   each nested list where the including line points (relative to the including file): the
+   reader returns, in order, texts whose requirement tokens are exactly the items'
+   requirements, and exactly the option tokens pip's grammar (shlex) gives for the option
+   lines.  This is the statement that was `reads_like_pip_full_statement` (refuted) before
+   the option-line repair; the guard that remains is `conventional` itself. *)
+Theorem C16_reads_like_pip :
   forall (valid : string -> bool) (fs : string -> option (list string)) fuel path (its : list item),
     conventional its = true ->
     fs path = Some (render its) -> holds fs (dirname path) its ->
@@ -24,60 +25,26 @@ Theorem C16_reads_like_pip_partial :
     exists texts, req_iter valid fs fuel path = Ok (texts, opts_of its) /\
                   map req_meaning texts = reqs_of its.
 Proof. exact reads_like_pip. Qed.
-Print Assumptions C16_reads_like_pip_partial.
+Print Assumptions C16_reads_like_pip.
 
-(* the hypotheses are satisfiable by a tree with continuations, hashes, inline comments,
-   option lines and includes nested two deep through `sub/` and `../` *)
+(* the hypotheses are satisfiable by a tree with continuations, hashes, inline comments, a
+   quoted option value, two options on one line, a comment after an option, and includes
+   nested two deep through `sub/` and `--requirement=../c.txt` *)
 Theorem C16_reads_like_pip_example :
   conventional ex_items = true /\ ex_fs "reqs.in" = Some (render ex_items) /\
   holds ex_fs (dirname "reqs.in") ex_items /\ Nat.ltb (depth ex_items) 5 = true /\
   render ex_items = ["# top"; "  "; "foo==1.0 \"; "    --hash=sha256:aa  \"; "    --hash=sha256:bb";
-                     "--index-url http://x/simple"; "  -r sub/b.txt # include";
-                     "baz ; python_version >= ""3"" "] /\
+                     "--index-url ""http://x/simple""  --find-links='./wheel_cache'";
+                     "  -r sub/b.txt # include"; "baz ; python_version >= ""3"" "] /\
+  render ex_sub1 = ["  # nested file"; "--extra-index-url=http://y/s # mirror"; "--requirement=../c.txt"; "qux[extra1]==3"] /\
   reqs_of ex_items = [["foo==1.0"]; ["deep"; ">="; "2.0"]; ["qux[extra1]==3"];
                       ["baz"; ";"; "python_version"; ">="; """3"""]] /\
-  opts_of ex_items = ["--index-url"; "http://x/simple"; "--extra-index-url=http://y/s"] /\
+  opts_of ex_items = ["--index-url"; "http://x/simple"; "--find-links=./wheel_cache"; "--extra-index-url=http://y/s"] /\
   req_iter any_valid ex_fs 5 "reqs.in" =
     Ok (["foo==1.0"; "deep >= 2.0  # why"; "qux[extra1]==3"; "baz ; python_version >= ""3"""],
-        ["--index-url"; "http://x/simple"; "--extra-index-url=http://y/s"]).
+        ["--index-url"; "http://x/simple"; "--find-links=./wheel_cache"; "--extra-index-url=http://y/s"]).
 Proof. exact reads_like_pip_example. Qed.
 Print Assumptions C16_reads_like_pip_example.
-
-Theorem C16_full_statement_refuted : ~ reads_like_pip_full_statement.
-Proof. exact full_statement_refuted. Qed.
-Print Assumptions C16_full_statement_refuted.
-
-(* a quoted option value keeps its quotes (pip removes them), up to the index URL handed to
-   the repository *)
-Theorem C16_quoted_option_refuted :
-  conventional_wide w_quoted = true /\
-  opts_of w_quoted = ["--index-url"; "http://x/simple"] /\
-  req_iter any_valid (fs_of [("r", render w_quoted)]) 3 "r" =
-    Ok (["foo"], ["--index-url"; dq ++ "http://x/simple" ++ dq]) /\
-  cli_front (req_iter any_valid (fs_of [("r", render w_quoted)]) 3 "r") =
-    FOk (mkRepos [dq ++ "http://x/simple" ++ dq] [] [] false).
-Proof. exact quoted_option_refuted. Qed.
-Print Assumptions C16_quoted_option_refuted.
-
-(* a comment after an option is collected as option tokens; the command line then stops
-   with argparse's usage error (exit status 2) *)
-Theorem C16_option_comment_refuted :
-  conventional_wide w_optcomment = true /\
-  render w_optcomment = ["--index-url http://x/s  # main index"; "foo"] /\
-  opts_of w_optcomment = ["--index-url"; "http://x/s"] /\
-  req_iter any_valid (fs_of [("r", render w_optcomment)]) 3 "r" =
-    Ok (["foo"], ["--index-url"; "http://x/s"; "#"; "main"; "index"]) /\
-  cli_front (req_iter any_valid (fs_of [("r", render w_optcomment)]) 3 "r") = FExit 2.
-Proof. exact option_comment_refuted. Qed.
-Print Assumptions C16_option_comment_refuted.
-
-Theorem C16_requirement_eq_refuted :
-  render w_reqeq = ["--requirement=inc.txt"] /\ reqs_of w_reqeq = [["foo"]] /\
-  req_iter any_valid (fs_of [("r", render w_reqeq); ("./inc.txt", ["foo"])]) 3 "r" =
-    Ok ([], ["--requirement=inc.txt"]) /\
-  cli_front (req_iter any_valid (fs_of [("r", render w_reqeq); ("./inc.txt", ["foo"])]) 3 "r") = FExit 2.
-Proof. exact requirement_eq_refuted. Qed.
-Print Assumptions C16_requirement_eq_refuted.
 
 (* outside the statement's domain (no white space before the backslash): why the guard is there *)
 Theorem C16_tight_backslash_refuted :
@@ -114,7 +81,7 @@ Theorem C16_guard_never_decides :
   forall valid rec_file dir lines s acc,
     (cont s = true \/ full s = "") ->
     iter_lines valid rec_file dir lines s acc = iter_lines_ng valid rec_file dir lines s acc.
-Proof. exact guard_never_decides. Qed.
+Proof. intros valid rec_file dir. exact (guard_never_decides valid dir rec_file). Qed.
 Print Assumptions C16_guard_never_decides.
 
 (* `line_parts[0]` can never raise: a complete logical line always has a first token (the
@@ -144,86 +111,66 @@ Print Assumptions C16_parse_requirements_skips.
 (* ---- the two front-ends, up to the arguments of build_repo *)
 (* For ALL files made of comment lines, blank lines, requirements (whose physical lines do
    not start with a directive prefix) and long-form directives --index-url / --extra-index-url
-   / --find-links written at column 0 as `--name value` (spaces) or `--name=value`, with an
-   unquoted value: both front-ends succeed, the Bazel scanner finds exactly the declared
-   values, and the command line uses the same index and extra-index locations (up to
-   norm_index_url's trailing-slash removal) in addition to its own, which stay first.  _partial: --find-links is NOT agreed on (the
-   command line gets none: r_find rc = [], see C16_find_links_refuted), and quoted,
-   indented, tab-separated or nested directives are outside the guard (refuted below). *)
+   / --find-links, one per line, possibly indented, written `--name<blanks/tabs>value` or
+   `--name=value`, the value bare or in quotes, possibly followed by a comment; and for all
+   repository options given on the command line itself (bi be bf bno): both front-ends
+   succeed, the Bazel scanner finds exactly the declared values, and the command line uses
+   the same index, extra-index AND find-links locations (index urls up to norm_index_url's
+   trailing-slash removal) in addition to its own, which stay first.
+   _partial: the Bazel scanner still reads the top-level file only and one directive per
+   line (C16_nested_directive_refuted, C16_multi_option_line_refuted). *)
 Theorem C16_front_ends_agree_partial :
   forall (valid : string -> bool) (fs : string -> option (list string))
-         (bi be : list string)   (* --index-url / --extra-index-url given on the command line itself *)
-         fuel path (fl : list fline),
+         (bi be bf : list string) (bno : bool) fuel path (fl : list fline),
     forallb fline_ok fl = true ->
     fs path = Some (render (map fitem fl)) -> 0 < fuel ->
     (forall t, In (req_meaning t) (reqs_of (map fitem fl)) -> valid t = true) ->
     exists rc rb,
-      cli_front_with bi be (req_iter valid fs fuel path) = FOk rc /\
+      cli_front_full bi be bf bno (req_iter valid fs fuel path) = FOk rc /\
       bazel_front (req_iter valid fs fuel path) (render (map fitem fl)) = FOk rb /\
       r_index rb = vals DIndex fl /\ r_extra rb = vals DExtra fl /\ r_find rb = vals DFind fl /\
       (forall u, In u (r_index rc) <-> In u bi \/ In u (map norm_index_url (r_index rb))) /\
       (forall u, In u (r_extra rc) <-> In u be \/ In u (map norm_index_url (r_extra rb))) /\
-      r_find rc = [] /\ r_noindex rc = false /\ r_noindex rb = false /\
+      (forall u, In u (r_find rc) <-> In u bf \/ In u (r_find rb)) /\
+      r_noindex rc = bno /\ r_noindex rb = false /\
       (NoDup bi -> exists tl, r_index rc = (bi ++ tl)%list) /\
-      (NoDup be -> exists tl, r_extra rc = (be ++ tl)%list).
+      (NoDup be -> exists tl, r_extra rc = (be ++ tl)%list) /\
+      (NoDup bf -> exists tl, r_find rc = (bf ++ tl)%list).
 Proof. exact front_ends_agree. Qed.
 Print Assumptions C16_front_ends_agree_partial.
 
 Theorem C16_front_ends_agree_example :
   forallb fline_ok ex_fl = true /\
-  render (map fitem ex_fl) = ["# indexes"; "--index-url http://x/simple/"; "--extra-index-url=http://y/s  ";
-                              "foo==1.0 \"; "    --hash=sha256:aa"; "--find-links  ./links";
+  render (map fitem ex_fl) = ["# indexes"; "  --index-url http://x/simple/  # main"; "--extra-index-url=""http://y/team_s""  ";
+                              "foo==1.0 \"; "    --hash=sha256:aa"; htab ++ "--find-links" ++ htab ++ "'./wheel_cache'";
                               "--index-url=http://x/simple"] /\
-  cli_front (req_iter (fun _ => true) ex_fl_fs 1 "reqs.in") =
-    FOk (mkRepos ["http://x/simple"] ["http://y/s"] [] false) /\
+  cli_front_full ["http://cli/s"] [] ["./own"] false (req_iter (fun _ => true) ex_fl_fs 1 "reqs.in") =
+    FOk (mkRepos ["http://cli/s"; "http://x/simple"] ["http://y/team_s"] ["./own"; "./wheel_cache"] false) /\
   bazel_front (req_iter (fun _ => true) ex_fl_fs 1 "reqs.in") (render (map fitem ex_fl)) =
-    FOk (mkRepos ["http://x/simple/"; "http://x/simple"] ["http://y/s"] ["./links"] false).
+    FOk (mkRepos ["http://x/simple/"; "http://x/simple"] ["http://y/team_s"] ["./wheel_cache"] false).
 Proof. exact front_ends_agree_example. Qed.
 Print Assumptions C16_front_ends_agree_example.
 
-(* option lines are honoured as repository options by the command line -- for the index and
-   extra-index directives only (_partial: --find-links and --no-index are re-parsed but
-   never used) *)
-Theorem C16_index_options_honoured_partial :
+(* option lines are honoured as repository options by the command line: index, extra-index
+   and (since the repair) find-links.  _partial: stated for the directive lines of the guard
+   above; short forms, several options per line and --no-index are covered by T2 only *)
+Theorem C16_options_honoured_partial :
   forall (valid : string -> bool) (fs : string -> option (list string)) fuel path (fl : list fline),
     forallb fline_ok fl = true ->
     fs path = Some (render (map fitem fl)) -> 0 < fuel ->
     (forall t, In (req_meaning t) (reqs_of (map fitem fl)) -> valid t = true) ->
     exists rc, cli_front (req_iter valid fs fuel path) = FOk rc /\
       (forall u, In u (r_index rc) <-> In u (map norm_index_url (vals DIndex fl))) /\
-      (forall u, In u (r_extra rc) <-> In u (map norm_index_url (vals DExtra fl))).
-Proof. exact index_options_honoured. Qed.
-Print Assumptions C16_index_options_honoured_partial.
-
-Theorem C16_find_links_refuted :
-  both [("r", render [directive_item DFind false " " "./links" ""; IReq "" "foo" [] [] no_tail])] "r" =
-  (FOk (mkRepos [] [] [] false), FOk (mkRepos [] [] ["./links"] false)).
-Proof. exact find_links_refuted. Qed.
-Print Assumptions C16_find_links_refuted.
-
-Theorem C16_quoted_directive_refuted :
-  both [("r", ["--index-url " ++ dq ++ "http://x/simple" ++ dq])] "r" =
-  (FOk (mkRepos [dq ++ "http://x/simple" ++ dq] [] [] false), FOk (mkRepos ["http://x/simple"] [] [] false)).
-Proof. exact quoted_directive_refuted. Qed.
-Print Assumptions C16_quoted_directive_refuted.
-
-Theorem C16_indented_directive_refuted :
-  both [("r", ["  --index-url http://x/simple"])] "r" =
-  (FOk (mkRepos ["http://x/simple"] [] [] false), FOk (mkRepos [] [] [] false)).
-Proof. exact indented_directive_refuted. Qed.
-Print Assumptions C16_indented_directive_refuted.
+      (forall u, In u (r_extra rc) <-> In u (map norm_index_url (vals DExtra fl))) /\
+      (forall u, In u (r_find rc) <-> In u (vals DFind fl)).
+Proof. exact options_honoured. Qed.
+Print Assumptions C16_options_honoured_partial.
 
 Theorem C16_nested_directive_refuted :
   both [("r", ["-r inc.txt"]); ("./inc.txt", ["--extra-index-url http://y/s"])] "r" =
   (FOk (mkRepos [] ["http://y/s"] [] false), FOk (mkRepos [] [] [] false)).
 Proof. exact nested_directive_refuted. Qed.
 Print Assumptions C16_nested_directive_refuted.
-
-Theorem C16_tab_directive_refuted :
-  both [("r", ["--index-url" ++ tab ++ "http://x/simple"])] "r" =
-  (FOk (mkRepos ["http://x/simple"] [] [] false), FOk (mkRepos [tab ++ "http://x/simple"] [] [] false)).
-Proof. exact tab_directive_refuted. Qed.
-Print Assumptions C16_tab_directive_refuted.
 
 Theorem C16_multi_option_line_refuted :
   both [("r", ["--index-url http://a/s --extra-index-url http://b/s"])] "r" =
@@ -241,7 +188,8 @@ Theorem C16_gen_obligations :
                     (["--index-url"; "--index_url"], 11, 0);
                     (["--find-links"; "--find_links"], 12, 2)] /\
    c16_bzl_comment = "#"%char /\
-   c16_bzl_strip = String "="%char (String " "%char (String (ascii_of_nat 10) (String """"%char (String "'"%char EmptyString))))) /\
+   c16_bzl_strip = String "="%char (String " "%char (String (ascii_of_nat 9) (String (ascii_of_nat 10) (String """"%char (String "'"%char EmptyString))))) /\
+   c16_bzl_strip_line = true) /\
   (c16_cli_options =
     [(["-n"; "--solution"], "solutions", 0, false); (["-s"; "--source"], "sources", 0, false);
      (["-x"; "--exclude-source"], "excluded_sources", 0, false); (["-f"; "--find-links"], "find_links", 0, false);
@@ -249,6 +197,6 @@ Theorem C16_gen_obligations :
      (["-w"; "--wheel-dir"], "wheel_dir", 1, false); (["--no-index"], "no_index", 2, false);
      (["-e"; "--editable"], "editable_sources", 0, false)] /\
    c16_cli_strict = true /\ c16_cli_norm_strip = "/" /\
-   c16_cli_merged = ["index_urls"; "extra_index_urls"; "editable_sources"]).
+   c16_cli_merged = ["index_urls"; "extra_index_urls"; "find_links"; "no_index"; "editable_sources"]).
 Proof. exact (conj gen_ok (conj gen_bzl_ok gen_cli_ok)). Qed.
 Print Assumptions C16_gen_obligations.
